@@ -20,7 +20,7 @@ theorem pPrimary_digits {c : Cfg} {f : Nat} {d : Chars} {g : Bool} {r : Toks} :
   rw [pPrimary_succ]
   simp only [callStart_none_of_fnTok (c := c) (a := ⟨.digits d, g⟩) (r := r) rfl]
 
-theorem numToks_cons (n : Num) : ∃ d tl, numToks n = ⟨.digits d, true⟩ :: tl := by
+theorem numToks_cons (n : Num) : ∃ d tl, numToks n = ⟨.digits d, false⟩ :: tl := by
   unfold numToks
   simp only
   split
@@ -82,9 +82,9 @@ theorem readsAt_bin {c : Cfg} {op : BinOp} {l r : Expr} (hop : opLevel op ≤ 5)
     (after_trivial hfol (Nat.le_refl _) (by omega))
   have h2 := pBin_of_entry (by omega) h1
   have h3 : after c (f + (1 + costAt r (opLevel op + 1) + 1) + 1) (opLevel op) (normCtx l)
-      (T (opTok op) :: (render r (opLevel op + 1) ++ rest)) = some R := by
+      (U (opTok op) :: (render r (opLevel op + 1) ++ rest)) = some R := by
     rw [after_bin hop, pBinRest_succ]
-    simp only [T, opAt_opTok op hop]
+    simp only [U, opAt_opTok op hop]
     rw [pBin_mono h2 (by omega)]
     rw [after_bin hop] at ha
     exact pBinRest_mono ha (by omega)
@@ -102,9 +102,9 @@ theorem readsAt_union {c : Cfg} {l r : Expr}
     (after_trivial hfol (Nat.le_refl _) (by omega))
   rw [entryThen_8] at h1
   have h3 : after c (f + (1 + costAt r 8) + 1) 7 (normCtx l)
-      (T (.p .pipe) :: (render r 8 ++ rest)) = some R := by
+      (U (.p .pipe) :: (render r 8 ++ rest)) = some R := by
     rw [after_7, pUnionRest_succ]
-    simp only [T]
+    simp only [U]
     rw [pPath_mono h1 (by omega)]
     rw [after_7] at ha
     exact pUnionRest_mono ha (by omega)
@@ -121,7 +121,7 @@ theorem readsAt_neg {c : Cfg} {e : Expr} (he : Reads c e) : ReadsAt c (.neg e) :
   cases ha
   apply pUnary_mono (f := 1 + costAt e 6 + 1) _ (by unfold costAt; omega)
   rw [pUnary_succ]
-  simp only [T, List.cons_append]
+  simp only [U, List.cons_append]
   show (match pUnary c (1 + costAt e 6) (render e 6 ++ rest) with
     | some (e, r') => some (Expr.neg e, r') | none => none) = _
   rw [h1]
@@ -129,13 +129,13 @@ theorem readsAt_neg {c : Cfg} {e : Expr} (he : Reads c e) : ReadsAt c (.neg e) :
 theorem readsAt_filt {c : Cfg} {b p : Expr} (hb : Reads c b) (hp : Reads c p) : ReadsAt c (.filt b p) := by
   intro rest f R hfol hf ha
   simp only [level_filt, normCtx, own, raw] at *
-  have h1 := hp 0 (T (.p .rbrack) :: rest) 1 (normCtx p, T (.p .rbrack) :: rest) (by omega) (fol_rbrack _ _ _)
+  have h1 := hp 0 (U (.p .rbrack) :: rest) 1 (normCtx p, U (.p .rbrack) :: rest) (by omega) (fol_rbrack _ _ _)
     (Nat.le_refl _) (by rw [after_bin (by omega)]; rfl)
   rw [entryThen_bin (by omega)] at h1
   have h3 : after c (f + (1 + costAt p 0) + 1) 9 (normCtx b)
-      (T (.p .lbrack) :: (render p 0 ++ T (.p .rbrack) :: rest)) = some R := by
+      (U (.p .lbrack) :: (render p 0 ++ U (.p .rbrack) :: rest)) = some R := by
     rw [after_9, pFilt_succ]
-    simp only [T] at h1 ⊢
+    simp only [U] at h1 ⊢
     rw [pBin_mono h1 (by omega)]
     rw [after_9] at ha
     exact pFilt_mono ha (by omega)
@@ -162,20 +162,20 @@ theorem pRel_of_step {c : Cfg} {F : Nat} {b x : Expr} {ts rest : Toks} {R}
 theorem readsAt_root {c : Cfg} : ReadsAt c .root := by
   intro rest f R hfol hf ha
   simp only [level_root, normCtx, own, raw] at *
-  have hin := tower (c := c) (x := .root) (ts := T (.p .slash) :: T (.p .rparen) :: rest)
-      (rest := T (.p .rparen) :: rest) (L := 8) (K := 0) (by omega)
+  have hin := tower (c := c) (x := .root) (ts := U (.p .slash) :: U (.p .rparen) :: rest)
+      (rest := U (.p .rparen) :: rest) (L := 8) (K := 0) (by omega)
       (by
         intro f R hf ha
         obtain ⟨f, rfl⟩ : ∃ f', f = f' + 1 := ⟨f - 1, by omega⟩
         rw [entryThen_8, Nat.add_zero, pPath_succ]
         rw [after_8] at ha
-        simpa [T, startsStep, nameTok, pathCont] using ha)
-      8 0 (by omega) (fol_rparen _ _ _) 1 (.root, T (.p .rparen) :: rest) (Nat.le_refl _)
+        simpa [T, U, startsStep, nameTok, pathCont] using ha)
+      8 0 (by omega) (fol_rparen _ _ _) 1 (.root, U (.p .rparen) :: rest) (Nat.le_refl _)
       (by rw [after_bin (by omega)]; rfl)
   rw [entryThen_bin (by omega)] at hin
-  have hprim : pPrimary c 18 ([T (.p .lparen), T (.p .slash), T (.p .rparen)] ++ rest) = some (.root, rest) := by
+  have hprim : pPrimary c 18 ([U (.p .lparen), U (.p .slash), U (.p .rparen)] ++ rest) = some (.root, rest) := by
     rw [pPrimary_succ]
-    simp only [T, List.cons_append, List.nil_append] at hin ⊢
+    simp only [U, List.cons_append, List.nil_append] at hin ⊢
     rw [hin]
   have h9 := primary_reads hprim (after_trivial (c := c) (x := .root) (k := 8) hfol hf (by omega))
   have := tower_step (by omega) h9 (after_mono ha (by omega))
@@ -197,7 +197,7 @@ theorem readsAt_ctx {c : Cfg} : ReadsAt c .ctx := by
   simp only [level_ctx, normCtx, own, raw] at *
   rw [entryThen_8]; rw [after_8] at ha
   rw [pPath_succ]
-  simp only [T, List.cons_append, List.nil_append, startsPrimary_dot (folPlain_of_fol hfol)]
+  simp only [U, List.cons_append, List.nil_append, startsPrimary_dot (folPlain_of_fol hfol)]
   exact pRel_of_step (F := f + 1) rfl (pathCont_mono ha (by omega))
 
 
@@ -206,7 +206,7 @@ theorem normBase_of_ne {b : Expr} (h : b ≠ .ctx) : normBase b = normCtx b := b
   cases b <;> first | exact absurd rfl h | simp [normBase, normCtx]
 
 theorem basePrefix_of_ne {b : Expr} (h : b ≠ .ctx) (h' : b ≠ .root) :
-    basePrefix b = render b 8 ++ [T (.p .slash)] := by
+    basePrefix b = render b 8 ++ [U (.p .slash)] := by
   cases b <;> first | exact absurd rfl h | exact absurd rfl h' | simp [basePrefix, render]
 
 theorem ownBase_of_ne {b : Expr} (h : b ≠ .ctx) (h' : b ≠ .root) : ownBase b = costAt b 8 := by
@@ -238,11 +238,11 @@ theorem path_reads {c : Cfg} {b : Expr} (hb : b ≠ .ctx → b ≠ .root → Rea
     simp only [basePrefix, ownBase, List.cons_append, List.nil_append, normBase] at *
     apply pPath_mono (f := f + S + 1 + 1) _ (by omega)
     rw [pPath_succ]
-    simp only [T, hss, if_true]
+    simp only [U, hss, if_true]
     exact hrel _ ha
   · rw [basePrefix_of_ne h1 h2, ownBase_of_ne h1 h2]
     rw [normBase_of_ne h1] at ha
-    have h3 : after c (f + S + 1) 8 (normCtx b) (T (.p .slash) :: (sts ++ rest)) = some R := by
+    have h3 : after c (f + S + 1) 8 (normCtx b) (U (.p .slash) :: (sts ++ rest)) = some R := by
       rw [after_8]; exact hrel _ ha
     have h4 := hb h1 h2 8 _ _ R (by omega) (by rfl) (by omega) h3
     rw [entryThen_8] at h4
@@ -264,15 +264,15 @@ theorem folPlain_preds {ps : Exprs} {rest : Toks} (h : folPlain rest = true) :
     folPlain (renderPreds ps ++ rest) = true := by
   cases ps with
   | nil => simpa [renderPreds] using h
-  | cons p ps => simp [renderPreds, T, folPlain]
+  | cons p ps => simp [renderPreds, U, folPlain]
 
 theorem step_reads {c : Cfg} {ax : Axis} {t : NodeTest} {ps : Exprs} (hps : ReadsPreds c ps)
     {rest : Toks} (hfol : fol 8 rest = true) (base : Expr) :
     pStep c (ownPreds ps + 1) base
-      (T (.kw (.axis ax)) :: T (.p .coloncolon) :: (testToks t ++ renderPreds ps) ++ rest)
+      (U (.kw (.axis ax)) :: U (.p .coloncolon) :: (testToks t ++ renderPreds ps) ++ rest)
       = some (.step base ax t (normCtxs ps), rest) := by
   rw [pStep_succ]
-  simp only [T, List.cons_append, List.append_assoc]
+  simp only [U, List.cons_append, List.append_assoc]
   rw [nodeTest_testToks (folPlain_preds (folPlain_of_fol hfol))]
   simp only [hps rest (fol_not_lbrack hfol (by omega))]
 
@@ -282,22 +282,22 @@ theorem readsAt_step {c : Cfg} {b : Expr} {ax : Axis} {t : NodeTest} {ps : Exprs
   simp only [level_step, normCtx, own, raw] at *
   rw [entryThen_8]; rw [after_8] at ha
   have := path_reads hb (fun base => .step base ax t (normCtxs ps))
-    (T (.kw (.axis ax)) :: T (.p .coloncolon) :: (testToks t ++ renderPreds ps)) (ownPreds ps + 1)
+    (U (.kw (.axis ax)) :: U (.p .coloncolon) :: (testToks t ++ renderPreds ps)) (ownPreds ps + 1)
     (rest := rest) (f := f) (R := R) (step_reads hps hfol)
-    (by simp [T, startsStep, nameTok, Kw.isOpName])
+    (by simp [U, startsStep, nameTok, Kw.isOpName])
     (by
       intro _
       refine ⟨?_, ?_, ?_⟩
-      · simp [T, startsPrimary, callStart]
-      · intro g r h; simp [T, P] at h
-      · intro g r h; simp [T, P] at h)
+      · simp [U, startsPrimary, callStart]
+      · intro g r h; simp [U, P] at h
+      · intro g r h; simp [U, P] at h)
     ha
   simp only [List.append_assoc] at this ⊢
   exact pPath_mono this (by omega)
 
 
 
-theorem fnToks_cons (p : Option Chars) (n : Chars) : ∃ s tl, fnToks p n = ⟨.ncname s, true⟩ :: tl := by
+theorem fnToks_cons (p : Option Chars) (n : Chars) : ∃ s tl, fnToks p n = ⟨.ncname s, false⟩ :: tl := by
   cases p with
   | none => exact ⟨_, _, rfl⟩
   | some p => exact ⟨_, _, rfl⟩
@@ -327,7 +327,7 @@ theorem pPrimary_ncname {c : Cfg} {f : Nat} {s : Chars} {g : Bool} {r : Toks} :
 
 theorem call_reads {c : Cfg} {p : Option Chars} {n : Chars} {as : Exprs} (has : ReadsArgs c as)
     {rest : Toks} (base : Expr) :
-    pStep c (ownArgs as + 1) base (fnToks p n ++ T (.p .lparen) :: renderArgs as ++ rest)
+    pStep c (ownArgs as + 1) base (fnToks p n ++ U (.p .lparen) :: renderArgs as ++ rest)
       = some (.call base p n (normCtxs as), rest) := by
   have hc := callStart_fnToks (c := c) (p := p) (n := n) (r := renderArgs as ++ rest)
   obtain ⟨s, tl, hs⟩ := fnToks_cons p n
@@ -343,7 +343,7 @@ theorem readsAt_call_ne {c : Cfg} {b : Expr} {p : Option Chars} {n : Chars} {as 
   simp only [level_call_ne hne, normCtx, own, raw] at *
   rw [entryThen_8]; rw [after_8] at ha
   have := path_reads hb (fun base => .call base p n (normCtxs as))
-    (fnToks p n ++ T (.p .lparen) :: renderArgs as) (ownArgs as + 1)
+    (fnToks p n ++ U (.p .lparen) :: renderArgs as) (ownArgs as + 1)
     (rest := rest) (f := f) (R := R) (call_reads has)
     (by obtain ⟨s, tl, hs⟩ := fnToks_cons p n; rw [hs]; simp [startsStep, nameTok])
     (fun h => absurd h hne)
@@ -383,12 +383,12 @@ theorem readsPreds_cons {c : Cfg} {p : Expr} {ps : Exprs} (hp : Reads c p) (hps 
     ReadsPreds c (.cons p ps) := by
   intro rest h
   simp only [ownPreds, renderPreds, normCtxs, List.cons_append, List.append_assoc]
-  have h1 := pBin0_of_reads hp (T (.p .rbrack)) (renderPreds ps ++ rest) rfl rfl
+  have h1 := pBin0_of_reads hp (U (.p .rbrack)) (renderPreds ps ++ rest) rfl rfl
   have h2 := hps rest h
   have : own p + tw (level p) 0 + ownPreds ps + 2 = (costAt p 0 + ownPreds ps + 1) + 1 := by
     unfold costAt; omega
   rw [this, pPreds_succ]
-  simp only [T, render] at h1 ⊢
+  simp only [U, render] at h1 ⊢
   rw [pBin_mono h1 (by omega)]
   simp only [pPreds_mono h2 (show ownPreds ps ≤ costAt p 0 + ownPreds ps + 1 by omega)]
 
@@ -404,7 +404,7 @@ theorem pArgs_of_args1 {c : Cfg} {F : Nat} {ts : Toks} {X} (h : pArgs1 c F ts = 
 theorem readsArgs_nil {c : Cfg} : ReadsArgs c .nil := by
   intro rest
   refine ⟨?_, fun h => absurd rfl h⟩
-  simp only [ownArgs, renderArgs, normCtxs, T, List.cons_append, List.nil_append]
+  simp only [ownArgs, renderArgs, normCtxs, U, List.cons_append, List.nil_append]
   rfl
 
 theorem readsArgs_cons {c : Cfg} {a : Expr} {as : Exprs} (ha : Reads c a) (has : ReadsArgs c as) :
@@ -416,13 +416,13 @@ theorem readsArgs_cons {c : Cfg} {a : Expr} {as : Exprs} (ha : Reads c a) (has :
     rw [this, pArgs1_succ]
     cases as with
     | nil =>
-      have h1 := pBin0_of_reads ha (T (.p .rparen)) rest rfl rfl
-      simp only [renderArgs, normCtxs, List.append_assoc, List.cons_append, List.nil_append, T, render] at h1 ⊢
+      have h1 := pBin0_of_reads ha (U (.p .rparen)) rest rfl rfl
+      simp only [renderArgs, normCtxs, List.append_assoc, List.cons_append, List.nil_append, U, render] at h1 ⊢
       rw [pBin_mono h1 (by omega)]
     | cons b bs =>
-      have h1 := pBin0_of_reads ha (T (.p .comma)) (renderArgs (.cons b bs) ++ rest) rfl rfl
+      have h1 := pBin0_of_reads ha (U (.p .comma)) (renderArgs (.cons b bs) ++ rest) rfl rfl
       have h3 := (has rest).2 (by simp)
-      simp only [renderArgs, List.append_assoc, List.cons_append, T, render] at h1 ⊢
+      simp only [renderArgs, List.append_assoc, List.cons_append, U, render] at h1 ⊢
       rw [pBin_mono h1 (by omega)]
       simp only [pArgs1_mono h3 (show ownArgs (.cons b bs) - 1 ≤ costAt a 0 + ownArgs (.cons b bs) + 1 by omega)]
       simp only [normCtxs]
